@@ -64,7 +64,7 @@ package internal
 //@ ensures bad: !(len(b) == 1 && b[0] == 0) && !(len(b) == 65 && b[0] == 4 && be(b[1:33]) < P && be(b[33:65]) < P && oncurve(be(b[1:33]), be(b[33:65]))) ==> nonnil(result1) && pt(p) == old(pt(p))
 //@ returns_if (len(b) == 1 && b[0] == 0) || (len(b) == 65 && b[0] == 4 && be(b[1:33]) < P && be(b[33:65]) < P && oncurve(be(b[1:33]), be(b[33:65]))) : p
 //@ returns_else nil
-//@ assigns *p.x, *p.y, *p.z
+//@ assigns *p.x, *p.y, *p.z, pt(p)
 
 //@ func sm2/internal.Sm2CheckOnCurve
 //@ mode int
